@@ -168,8 +168,24 @@ def receiver_family_contract(fv, cname, meth):
 def bind_args(fv, c, node, st, spec, recv, closure=False):
     params = list(c.params)
     vals = {}
-    pos = [SV(fv.E.fresh('lambda', ANY).term, ANY) if isinstance(a, ast.Lambda) else fv.ev(a, st, spec)
-           for a in node.args]
+    def arg(a):
+        if isinstance(a, ast.Lambda):
+            return SV(fv.E.fresh('lambda', ANY).term, ANY)
+        if fv.in_slice() and not spec and not fv.binders:
+            no = len(fv.obligations)
+            try:
+                return fv.ev(a, st, spec)
+            except (Unsupported, EngineError) as e:
+                # slice mode: an argument outside the subset is an arbitrary value (it may have called unknown code)
+                del fv.obligations[no:]
+                from .slicing import havoc_state, site_nodes
+                if site_nodes(fv, ast.Expr(value=a)):
+                    raise
+                fv.abstracted.append(dict(line=a.lineno, stmt='argument ' + ast.unparse(a)[:90], reason=str(e)[:160]))
+                havoc_state(fv, st, set())
+                return fv.E.fresh('arg', ANY)
+        return fv.ev(a, st, spec)
+    pos = [arg(a) for a in node.args]
     if recv is not None:
         pos = [recv] + pos
     if len(pos) > len(params):
@@ -179,7 +195,7 @@ def bind_args(fv, c, node, st, spec, recv, closure=False):
     for k in node.keywords:
         if k.arg is None:
             fv.err(node, '**kwargs')
-        vals[k.arg] = fv.ev(k.value, st, spec)
+        vals[k.arg] = arg(k.value)
     # defaults from the real definition
     missing = [pn for pn, _ in params if pn not in vals]
     if missing:
@@ -298,7 +314,8 @@ def apply_contract(fv, c, node, st, spec, recv, closure=False):
     if not spec:
         for pname, pe in c.requires:
             g = sub.truthy(sub.ev(pe, cst, True))
-            fv.oblige(st, 'call[%s]/pre[%s]' % (c.qual.split('.')[-1], pname), g, node)
+            if not fv.in_slice():
+                fv.oblige(st, 'call[%s]/pre[%s]' % (c.qual.split('.')[-1], pname), g, node)
             if not fv.binders:
                 fv.add_fact(st, g)
     fv.local_axioms.extend(sub.local_axioms)
@@ -324,9 +341,13 @@ def apply_contract(fv, c, node, st, spec, recv, closure=False):
         havoc_target(fv, sub, mname, st, post, vals, closure)
     res = fv.fresh_typed(st, 'r_' + c.qual.split('.')[-1], rty)
     sub.result_sv = res
-    if c.opts.get('allocates') or contract_mentions(c, ('newobj', 'fresh', 'allocated')):
+    if c.opts.get('allocates') or c.opts.get('slice') or contract_mentions(c, ('newobj', 'fresh', 'allocated')):
         from .heap import ALLOC0
         a0 = st.env['__alloc'].term if '__alloc' in st.env else ALLOC0
+        if not z3.is_const(a0):
+            named = z3.Const('alloc!%d' % next(E.counter), z3.ArraySort(P.V, z3.BoolSort()))
+            fv.add_fact(st, named == a0)
+            a0 = named
         a1 = z3.Const('alloc!%d' % next(E.counter), z3.ArraySort(P.V, z3.BoolSort()))
         o = z3.Const('o!al%d' % next(E.counter), P.V)
         fv.add_fact(st, z3.ForAll([o], z3.Implies(z3.Select(a0, o), z3.Select(a1, o)), patterns=[z3.Select(a0, o)]))
@@ -363,6 +384,10 @@ def apply_contract(fv, c, node, st, spec, recv, closure=False):
         if changed:
             st.heap = post.heap
             st.heap_version += 1
+    if fv.in_slice() and c.opts.get('slice'):
+        # the callee establishes the global invariants at its own sites: they hold again in the state after the call
+        from .slicing import assume_global_invariants
+        assume_global_invariants(fv, st)
     if c.opts.get('noreturn'):
         st.dead = True
         st.pc = z3.BoolVal(False)
@@ -408,7 +433,11 @@ def contract_mentions(c, names):
 def havoc_target(fv, sub, mname, st, post, vals, closure):
     E = fv.E
     if mname == '.*':
+        frozen = set((fv.c.opts.get('immutable_fields', '') if fv.c else '').split(',')) | \
+            set(sub.c.opts.get('immutable_fields', '').split(','))
         for attr in sorted(E.field_types):
+            if attr in frozen:
+                continue
             havoc_target(fv, sub, '.' + attr, st, post, vals, closure)
         return
     if mname.startswith('.'):
